@@ -49,6 +49,9 @@ pub enum Via {
     Msg,
     Prefix,
     Custom,
+    /// a custom key registered under the name of a built-in one (`eta`): it takes its place, and its
+    /// output is a field content like any other
+    CustomNamedEta,
 }
 
 #[derive(Debug, Clone, Serialize, Deserialize)]
@@ -132,6 +135,7 @@ fn run_pad(c: &PadCase) -> CaseResult {
         Via::Msg => "msg",
         Via::Prefix => "prefix",
         Via::Custom => "ck",
+        Via::CustomNamedEta => "eta",
     };
     let first = match c.before {
         Some((w, t, st)) => format!("{{pos:{}{}{}}}", w % 12, if t { "!" } else { "" }, if st { ".bold" } else { "" }),
@@ -147,9 +151,14 @@ fn run_pad(c: &PadCase) -> CaseResult {
         .map_err(|p| Fail::new("panic", format!("with_template({template:?}) panicked: {p}")))?
         .map_err(|e| Fail::new("rejected", format!("with_template({template:?}) rejected: {e}")))?;
     let content2 = given.clone();
-    let style = style.with_key("ck", move |_: &ProgressState, w: &mut dyn std::fmt::Write| {
-        let _ = w.write_str(&content2);
-    });
+    let content3 = given.clone();
+    let style = style
+        .with_key("ck", move |_: &ProgressState, w: &mut dyn std::fmt::Write| {
+            let _ = w.write_str(&content2);
+        })
+        .with_key(if c.via == Via::CustomNamedEta { "eta" } else { "ck_unused" }, move |_: &ProgressState, w: &mut dyn std::fmt::Write| {
+            let _ = w.write_str(&content3);
+        });
     let setup = BarSetup { msg: given.clone(), prefix: given.clone(), cols: u16::MAX, rows: u16::MAX, tab_width, ..Default::default() };
     let lines = match render(style, &setup) {
         Ok(l) => l,
@@ -173,6 +182,7 @@ fn run_pad(c: &PadCase) -> CaseResult {
     v.label_if(c.before.is_some(), "second_field_of_the_template");
     v.label_if(tab_width.is_some(), "content_with_a_tab");
     v.label_if(tab_width.is_some() && c.via == Via::Custom, "custom_key_writes_a_tab");
+    v.label_if(c.via == Via::CustomNamedEta, "custom_key_under_a_built_in_name");
     Ok(v)
 }
 
@@ -191,7 +201,7 @@ fn pad_strategy() -> BoxedStrategy<PadCase> {
                 Just(width),
                 proptest::option::weighted(0.8, prop_oneof![Just(Align::Left), Just(Align::Center), Just(Align::Right)]),
                 any::<bool>(),
-                prop_oneof![3 => Just(Via::Msg), 1 => Just(Via::Prefix), 2 => Just(Via::Custom)],
+                prop_oneof![3 => Just(Via::Msg), 1 => Just(Via::Prefix), 2 => Just(Via::Custom), 1 => Just(Via::CustomNamedEta)],
                 proptest::option::weighted(0.3, (any::<u8>(), any::<bool>(), any::<bool>())),
                 proptest::option::weighted(0.12, (any::<bool>(), any::<u8>())),
                 proptest::option::weighted(0.2, (any::<u8>(), 0u8..13)),
@@ -229,10 +239,15 @@ pub struct WideCase {
     /// (terminals of at least 150 columns only, so that the line still fits the emulated height)
     #[serde(default)]
     huge_before: bool,
+    /// the message is this content repeated until it is longer than 65535 characters
+    #[serde(default)]
+    very_long: bool,
 }
 
 fn run_wide(c: &WideCase) -> CaseResult {
     let raw = content_of(&c.chunks);
+    let very_long = c.very_long && !raw.is_empty() && !raw.contains('\u{1b}') && c.tab.is_none();
+    let raw = if very_long { raw.repeat(66_000 / raw.chars().count() + 1) } else { raw };
     // (a TAB only between plain characters: chunk boundaries may be inside an SGR sequence)
     let (msg, content) = match c.tab {
         Some((at, _, w2)) if !raw.contains('\u{1b}') => {
@@ -314,6 +329,7 @@ fn run_wide(c: &WideCase) -> CaseResult {
     v.label_if(tabbed, "tab_width_changed_between_two_draws");
     v.label_if(c.in_multi && c.resized_from.map_or(false, |w| w != c.term), "member_of_a_multi_progress_after_the_terminal_was_resized");
     v.label_if(huge, "rest_of_the_line_wider_than_65535_columns");
+    v.label_if(very_long, "message_longer_than_65535_characters");
     Ok(v)
 }
 
@@ -329,7 +345,7 @@ fn wide_strategy() -> BoxedStrategy<WideCase> {
         proptest::bool::weighted(0.3),
         proptest::option::weighted(0.3, 1u16..200),
     )
-        .prop_map(|(chunks, term, left, right, align, line_before, tab, in_multi, resized_from)| WideCase { huge_before: term >= 150 && term % 2 == 0, chunks, term, left, right, align, line_before, tab, in_multi, resized_from })
+        .prop_map(|(chunks, term, left, right, align, line_before, tab, in_multi, resized_from)| WideCase { huge_before: term >= 150 && term % 2 == 0, very_long: term % 16 == 5, chunks, term, left, right, align, line_before, tab, in_multi, resized_from })
         .boxed()
 }
 
@@ -353,12 +369,12 @@ fn decode_pad(u: &mut FuzzInput) -> PadCase {
         8 => u.u16() as u32,
         _ => [0u32, 1, 255, 256, 65535][u.n(4)],
     };
-    PadCase { chunks, width, align: [None, Some(Align::Left), Some(Align::Center), Some(Align::Right)][u.n(3)], truncate: u.bool(), via: [Via::Msg, Via::Prefix, Via::Custom][u.n(2)], before: if u.n(3) == 0 { Some((u.u8(), u.bool(), u.bool())) } else { None }, bar: if u.n(7) == 0 { Some((u.bool(), u.u8())) } else { None }, tab: if u.n(5) == 0 { Some((u.u8(), u.n(12) as u8)) } else { None } }
+    PadCase { chunks, width, align: [None, Some(Align::Left), Some(Align::Center), Some(Align::Right)][u.n(3)], truncate: u.bool(), via: [Via::Msg, Via::Prefix, Via::Custom, Via::CustomNamedEta][u.n(3)], before: if u.n(3) == 0 { Some((u.u8(), u.bool(), u.bool())) } else { None }, bar: if u.n(7) == 0 { Some((u.bool(), u.u8())) } else { None }, tab: if u.n(5) == 0 { Some((u.u8(), u.n(12) as u8)) } else { None } }
 }
 
 fn decode_wide(u: &mut FuzzInput) -> WideCase {
     let lit = |u: &mut FuzzInput, max: usize| -> String { (0..u.n(max)).map(|_| u.pick(&['a', ':', '[', ']', ' ', '\u{e9}', '\u{4e16}'])).collect() };
-    WideCase { chunks: decode_chunks(u), term: 1 + u.n(99) as u16, left: lit(u, 6), right: lit(u, 4), align: [None, None, Some(Align::Left), Some(Align::Center), Some(Align::Right)][u.n(4)], line_before: if u.n(3) == 0 { Some(u.n(2) as u8) } else { None }, tab: if u.n(3) == 0 { Some((u.u8(), u.n(16) as u8, u.n(16) as u8)) } else { None }, in_multi: u.n(3) == 0, resized_from: if u.n(3) == 0 { Some(1 + u.n(150) as u16) } else { None }, huge_before: false }
+    WideCase { chunks: decode_chunks(u), term: 1 + u.n(99) as u16, left: lit(u, 6), right: lit(u, 4), align: [None, None, Some(Align::Left), Some(Align::Center), Some(Align::Right)][u.n(4)], line_before: if u.n(3) == 0 { Some(u.n(2) as u8) } else { None }, tab: if u.n(3) == 0 { Some((u.u8(), u.n(16) as u8, u.n(16) as u8)) } else { None }, in_multi: u.n(3) == 0, resized_from: if u.n(3) == 0 { Some(1 + u.n(150) as u16) } else { None }, huge_before: false, very_long: false }
 }
 
 pub fn property() -> Property {
@@ -381,7 +397,7 @@ pub fn property() -> Property {
                 cases: |t| t.pick(36_000, 2_000_000),
                 run: run_pad,
                 signature: no_signature,
-                essential: &["truncation_path", "truncation_non_ascii_or_sgr", "padding_path", "overflow_unshortened", "double_width", "sgr", "second_field_of_the_template", "bar_key_as_field", "bar_cells_leave_a_column_over", "content_with_a_tab", "custom_key_writes_a_tab"],
+                essential: &["truncation_path", "truncation_non_ascii_or_sgr", "padding_path", "overflow_unshortened", "double_width", "sgr", "second_field_of_the_template", "bar_key_as_field", "bar_cells_leave_a_column_over", "content_with_a_tab", "custom_key_writes_a_tab", "custom_key_under_a_built_in_name"],
                 workers: w,
                 decode: Some(decode_pad),
             }),
@@ -392,7 +408,7 @@ pub fn property() -> Property {
                 cases: |t| t.pick(24_000, 1_200_000),
                 run: run_wide,
                 signature: no_signature,
-                essential: &["truncation_path", "truncation_non_ascii_or_sgr", "padding_path", "rest_does_not_fit", "wide_msg_last", "member_of_a_multi_progress_after_the_terminal_was_resized", "rest_of_the_line_wider_than_65535_columns"],
+                essential: &["truncation_path", "truncation_non_ascii_or_sgr", "padding_path", "rest_does_not_fit", "wide_msg_last", "member_of_a_multi_progress_after_the_terminal_was_resized", "rest_of_the_line_wider_than_65535_columns", "message_longer_than_65535_characters"],
                 workers: w,
                 decode: Some(decode_wide),
             }),
